@@ -75,6 +75,14 @@ def _log_fit(role, ids):
     return j
 
 
+XREC = []      # (row ids, last design column) of every learner fit of the current run
+
+
+def _rec_x(X):
+    X = np.asarray(X)
+    XREC.append(([int(v) for v in X[:, 0]], np.array(X[:, -1], dtype=float)))
+
+
 def _log_predict(how, role, X, held):
     """held = the training row ids held, AT PREDICT TIME, by the object that computes the prediction (None = unfitted).
     Which fitted copy predicts is derived from these ids (enc_log), never from anything remembered at fit time."""
@@ -111,6 +119,7 @@ def _spy_classes():
 
         def fit(self, X, y):
             ids = [int(v) for v in X[:, 0]]
+            _rec_x(X)
             _log_fit(self.role, ids)
             self.state_ = {'ids': ids, 'mu': _mu(y)}
             return self
@@ -136,6 +145,7 @@ def _spy_classes():
         fitted state the object already carries, so the rows a model has learnt from accumulate along a copy lineage"""
         def fit(self, X, y):
             ids = [int(v) for v in X[:, 0]]
+            _rec_x(X)
             _log_fit(self.role, ids)
             prev = getattr(self, 'state_', None)
             self.state_ = {'ids': (list(prev['ids']) if prev else []) + ids, 'mu': _mu(y)}
@@ -158,6 +168,7 @@ def _spy_classes():
 
         def fit(self, X, y):
             ids = [int(v) for v in X[:, 0]]
+            _rec_x(X)
             _log_fit(self.role, ids)
             self.core.train(ids, _mu(y))       # in place
             return self
@@ -187,6 +198,7 @@ def _spy_classes():
             self.role = role
 
         def fit(self, X, y):
+            _rec_x(X)
             _log_fit(self.role, [int(v) for v in X[:, 0]])
             return SuperLearner.fit(self, X, y)
 
@@ -306,8 +318,11 @@ def run_once(spec):
         REC[0] = rec
         try:
             est = getattr(dr, spec['cls'])(df, exposure='art', outcome='y')
-            est.exposure_model('rid + L', a_est)
-            est.outcome_model('rid + art + L', y_est)
+            tf = spec.get('transform')
+            lterm = '%s(L)' % tf if tf else 'L'        # patsy's stateful transforms memorise mean / sd from the rows they are GIVEN
+            del XREC[:]
+            est.exposure_model('rid + ' + lterm, a_est)
+            est.outcome_model('rid + art + ' + lterm, y_est)
             if spec.get('prefit'):
                 # the split/fit/predict schedule is a property of every fit(), not of the first one on an object
                 est.fit(n_splits=spec['prefit'], n_partitions=1, random_state=spec['rs'] // 2)
@@ -319,6 +334,16 @@ def run_once(spec):
             out['point'] = float(est.risk_difference if spec['outcome'] == 'binary' else est.ace)
         except Exception as e:   # noqa
             out['error'] = '%s: %s' % (type(e).__name__, str(e)[:120])
+    # every learner must have been trained on a design computed from the rows of ITS OWN part only
+    out['leak'] = 0.0
+    if spec.get('transform') and out['error'] is None:
+        lmap = {int(i): float(v) for i, v in zip(df['rid'], df['L']) if v == v}
+        for ids, col in XREC:
+            raw = np.array([lmap[i] for i in ids])
+            want = raw - raw.mean()
+            if spec['transform'] == 'standardize':
+                want = want / (raw.std() if raw.std() > 0 else 1.0)
+            out['leak'] = max(out['leak'], float(np.max(np.abs(col - want))))
     out['parts'] = rec.parts
     out['pre'] = rec.pre
     out['estimator_touched'] = bool(a_touched() or y_touched())
@@ -408,6 +433,7 @@ def gen_specs(ctx):
         kmin = 3 if is_double(cls) else 2
         others = [j for j in range(kmin, 7) if j != k and n // j >= (6 if s['learner'] == 'sl' else 1)]
         s['prefit'] = rng.choice(others) if others and rng.random() < 0.3 else None
+        s['transform'] = rng.choice([None, None, None, 'center'])     # (standardize() divides by a part's sd, which is 0 for a constant part)
         s.update(kw)
         return s
     for k in range(2, 7):
@@ -492,6 +518,10 @@ def check_specs(ctx, specs, fails):
             bad('%s.calls-outside-partition' % spec['cls'], 'learner called before any partition was drawn: %r' % (r1['pre'][:2],))
         if r1['estimator_touched']:
             bad('%s.estimator-not-copied' % spec['cls'], 'the user-supplied estimator object itself was fitted (no deep copy)')
+        if r1.get('leak', 0.0) > 1e-9:
+            fails.append((spec['n'], '%s.design-from-other-parts' % spec['cls'], 'a learner was fitted on %s(L) values that are not computed from '
+                          'the rows of its own part (max deviation %.3g): rows of other parts leak into its training design [%s]'
+                          % (spec['transform'], r1['leak'], spec['cls']), {'spec': spec}))
         if r1['mutated']:
             bad('%s.mutated' % spec['cls'], 'the input frame was modified')
         for pi, part in enumerate(r1['parts']):
